@@ -1,31 +1,128 @@
 # C05 — reopening and maintenance operations preserve the database
+import os
 import vlib
+from checks.common import *
 from checks.db_common import run_db, spec_level
 
 META = dict(
     engine="coq+hx_core",
-    technique="Coq proof that reopen / backup+open / optimize preserve the storage layer's record map exactly (on the model of storage.rs proved to refine the abstract map, C04) + maintenance operations executed at random points of generated histories with ordered full dumps before/after",
-    level_text="PARTIAL. Machine-checked: C05_storage_maintenance_partial — on every reachable storage state backup+open, drop+open of a committed file and optimize_storage preserve the map index -> bytes of live records "
-               "exactly (optimize only drops free regions); C05_clean_reopen_identity — recovery of a cleanly closed file is the identity on its bytes. Not proved: that equal records give equal query results through the "
-               "collection layers (vectors with cached length/capacity, maps, graph, indexes). Checked on every run: each of {drop+reopen, optimize_storage, shrink_to_fit, backup+open, copy, rename, reopen with another "
-               "file-backed variant} is applied at random points (and at the end) of generated histories on DbFile, Db, DbAny(file) and DbAny(mapped); the full ORDERED dump (ids, endpoints, adjacency order, ordered "
-               "properties, aliases, indexes with contents, node count) and a fixed battery of 12 searches (result order included) must be identical before and after, and the history continues on the maintained database "
-               "side by side with the in-memory one and the extracted model. The *_guarded theorems state the same for the recovery with the position check of apply_wal_record (model recover_g, fixes/C07-wal-position.diff): on these logs the check never fires (C01_guarded_recovery_agrees), so the statements hold for a tree with or without it.",
+    technique="Coq proofs at two layers: (L1) reopen / backup+open / optimize preserve the storage layer's record map exactly (model of storage.rs proved to refine the abstract map, C04); "
+              "(L2) the storage-backed collections — vec.rs, DbMapData of map.rs, GraphDataStorage of graph.rs, the root record of db.rs — modelled line by line as programs over the storage "
+              "interface and verified against the abstract record map for EVERY history including reloads (from_storage) and maintenance of the storage underneath, transferred to the storage model "
+              "through C04_step_refines; + differential execution of the extracted collection model (run on the extracted storage model: exact record bytes and indexes) against the real collections "
+              "through the cfg(agdb_verif) wrappers of hook H4; + maintenance operations executed at random points of generated query histories with ordered full dumps before/after",
+    level_text="PARTIAL (the database level L3 is not a theorem). Machine-checked (coq/Props/C05.v, every theorem closed under the global context): "
+               "L1: C05_storage_maintenance_partial — on every reachable storage state backup+open, drop+open of a committed file and optimize_storage preserve the map index -> bytes of live records exactly; "
+               "C05_clean_reopen_identity. "
+               "L2, vectors (FULL): C05_vec_history — for EVERY history of push / replace / remove / swap / resize / reserve / shrink_to_fit / value / iteration / len on a storage-backed vector, interleaved at will "
+               "with reloads (the handle dropped and rebuilt by DbVec::from_storage, incl. its length check) and with optimize / drop+open / backup+open of the storage underneath, the observations are those of "
+               "the plain list (reload and maintenance do nothing), the representation invariant holds (record = le64 len ++ slots ++ UNCONSTRAINED spare bytes, slot i represents element i, len <= capacity) "
+               "and the history touches exactly its footprint (frame: no other record changes, none is leaked); generic in the element class (elem_law), proved for u64, i64, raw inline bytes, MapValueState, "
+               "String (out-of-line records owned by the slots), DbValue (the 16-byte value index of C12: inline up to 15 bytes, else one owned record; from C12's theorems) and DbKeyValue (a pair of them); C05_vec_reload; C05_vec_remove_from_storage; C05_vec_history_on_storage_{u64,i64,string,dbvalue,dbkv} + C05_cwp_sound: the same statements hold of runs on the "
+               "MODEL OF storage.rs (file-like and memory-like) from a fresh storage — nothing is assumed of the storage that C04 did not prove; non-vacuity examples by evaluation. "
+               "L2, map data (FULL for the MapData interface): C05_map_history — EVERY history of set_state / set_key / set_value / set_len / resize / swap / shrink_to_fit / state / key / value / capacity / len of a "
+               "storage-backed map (DbMapData: the index record + the three vectors, pairwise disjoint), with reloads (DbMapData::from_storage) and maintenance at will, yields the observations of the plain table; "
+               "the reloaded interface stands for the same table, so the algorithms of multi_map.rs (written against that interface, no state of their own; OpenMap.v/C19 on ct_omap) compute the same; C05_map_reload; "
+               "C05_map_history_on_storage_{u64,string} on the model of storage.rs. "
+               "L2, graph data (FULL for the GraphData interface): C05_graph_history — EVERY history of set / get of from, to, from_meta, to_meta, grow, shrink_to_fit, capacity on GraphDataStorage (index record + four "
+               "DbVec<i64>), with reloads and maintenance, yields the observations of the four plain arrays (the arrays of Graph.v/C08); C05_graph_history_on_storage from GraphDataStorage::new. "
+               "L2, root record: C05_root_roundtrip_partial — DbStorageIndex stored at index 1 is what the next open reads (PARTIAL: the components are not assembled into one invariant of the whole database file). "
+               "Also pinned: C02_{vec,map,graph}_loads_partial (the loaders succeed and read back the content in every state satisfying the invariants, i.e. at every transaction boundary) and "
+               "C06_{vec,map,graph}_variants_agree (file-like and memory-like storage give the same observations for every collection history). "
+               "NOT proved: the composition L2 -> L3 (that DbImpl's query results are a function of these collections' contents only; DbIndexes = a vector of (value index, multi-map) pairs, DbKeyValues = a vector of "
+               "indexes of DbVec<DbKeyValue> — each component class is covered, the nesting is not assembled), the algorithms of multi_map.rs / graph.rs over the interfaces (C19 / C08 models), and the "
+               "u64-overflow behaviour of vec.rs' own arithmetic (modelled in N; bounded by the record size which the storage keeps below 2^64). "
+               "Checked on every run: (a) collection correspondence — generated histories (vectors of u64 / i64 / String / DbValue / DbKeyValue, DbMapData<u64,u64> and <String,u64>, GraphDataStorage; reload / optimize / reopen / backup+open "
+               "at random points) on MemoryStorage, FileStorage and FileStorageMemoryMapped through hook H4; after EVERY step the observation, the handle (index, len, capacity) and EVERY live record of the storage with "
+               "its raw bytes are compared EXACTLY with the extracted model (spare-capacity bytes and indexes of out-of-line records included); independently a shadow list / table / multimap in the harness is the direct "
+               "oracle on the implementation (reads agree; content read through a reloaded handle equals the content before), also for the whole MultiMapStorage<u64,u64>; skipped with a note when hook H4 "
+               "(fixes/H4-dbvec-wrapper.diff) is not in the tree under test; (b) each of {drop+reopen, optimize_storage, shrink_to_fit, backup+open, copy, rename, reopen with another file-backed variant} applied at "
+               "random points (and at the end) of generated query histories on DbFile, Db, DbAny(file), DbAny(mapped): full ORDERED dump and a battery of 12 searches identical before and after, the history continues "
+               "side by side with the in-memory database and the extracted database model. The *_guarded theorems state the L1 results for the recovery with the position check of apply_wal_record (model recover_g, fix 826414a): "
+               "on logs the storage wrote the check never fires (C01_guarded_recovery_agrees).",
     design_ref="DESIGN.md §5 C05",
-    level_note="Trusted: Coq kernel, extraction, OCaml driver, Rust harness. The storage model is tied to storage.rs by the C04 correspondence. DbMemory 'reopen' = backup to a file + open.",
+    level_note="Trusted: Coq kernel, extraction, OCaml driver, Rust harness (its generators and shadow structures), hook H4 (delegating wrappers, add-only, cfg(agdb_verif)). The storage model is tied to storage.rs by "
+               "the C04 correspondence, the collection model to vec.rs / map.rs / graph.rs by the exact byte-level correspondence of this check. DbMemory 'reopen' = backup to a file + open.",
 )
+
+WRAPPER = "vdbvec!(VDbVecU64"         # hook H4 (fixes/H4-dbvec-wrapper.diff) in agdb/src/verif.rs
+
+
+def wrapper_present():
+    p = os.path.join(vlib.REPO, "agdb", "src", "verif.rs")
+    return os.path.exists(p) and WRAPPER in open(p, errors="replace").read()
+
+
+def run_coll(ctx):
+    """collection-layer correspondence (needs hook H4): exact comparison of observations, handles and all live record bytes"""
+    exe, dlog = vlib.build_driver()
+    if exe is None:
+        raise RuntimeError("driver build failed: " + dlog)
+    tdir, blog = vlib.cargo_build("hx_core", "release", features=["h4_dbvec"])
+    if tdir is None:
+        raise RuntimeError("harness build (feature h4_dbvec) failed: " + blog)
+    w = os.path.join(ctx.workdir, "coll")
+    os.makedirs(w, exist_ok=True)
+    n, steps = (120, 70) if ctx.tier == "quick" else (1600, 120)
+    rc, out = vlib.sh([os.path.join(tdir, "hx_core"), "coll", "--seed", str(ctx.seed), "--n", str(n), "--steps", str(steps), "--out", w], timeout=6000)
+    if rc != 0:
+        raise RuntimeError("coll harness failed: " + out[-2000:])
+    rc, err = run_driver(exe, os.path.join(w, "cases.txt"), os.path.join(w, "model.txt"), timeout=6000)
+    cases, model, impl = (read_lines(os.path.join(w, f)) for f in ("cases.txt", "model.txt", "impl.txt"))
+    dis = diff_lines(cases, model, impl, limit=8)
+    for d in dis:
+        try:
+            k = int(d["what"].split()[1])
+            start = max(i for i in range(k + 1) if cases[i].startswith("coll new"))
+            d["history"] = " ; ".join(c[len("coll "):] for c in cases[start:k + 1])[:6000]
+            d["what"] = "collection correspondence, " + d["what"]
+        except Exception:
+            pass
+    for i, m in enumerate(model):
+        if m.startswith("ERROR"):
+            dis.append(dict(what="collection correspondence, case %d: the model driver failed" % i, case=cases[i][:2000], model=m[:2000], impl=impl[i][:2000] if i < len(impl) else ""))
+            break
+    failures = [dict(cls=l.split(" ")[0], what=l[:6000]) for l in read_lines(os.path.join(w, "oracle.txt"))]
+    dist, ev, nt, samples = merge_stats([os.path.join(w, "stats.json")])
+    return dict(steps=ev, lines=len(cases), disagreements=dis, failures=failures, dist=dist, nontrivial=nt, samples=samples, histories=dist.get("histories", 0))
 
 
 def run(ctx):
+    notes = []
+    co = None
+    if wrapper_present():
+        co = run_coll(ctx)
+    else:
+        notes.append("collection-layer correspondence (Collections.v against DbVec / DbMapData / GraphDataStorage, exact record bytes) SKIPPED: hook H4 "
+                     "(agdb::verif::VDbVecU64 & co., fixes/H4-dbvec-wrapper.diff) is not in %s; only the part that needs no hook ran "
+                     "(maintenance operations on generated query histories through the public Db API)" % vlib.REPO)
     n, steps = (50, 30) if ctx.tier == "quick" else (1200, 60)
     r = run_db(ctx, "all", n, steps, variants="file,mapped,any_file,any_mapped", maintenance=True)
     failures = [f for f in r["failures"] if f["cls"].startswith(("maintenance-", "variant-")) or f["cls"] in ("panic", "read-error")]
     failures += [f for f in spec_level(r) if f["cls"] == "model-mismatch"]
+    disagreements = list(r["disagreements"])
+    evaluations, nontrivial, samples, dist = r["cases"], r["nontrivial"], r["samples"], dict(r["dist"])
+    rule = ("%d generated query histories (profile all, <= %d steps) executed on DbMemory and side by side on DbFile, Db, DbAny(file), DbAny(mapped); with probability 1/12 per step and at the end each "
+            "file-backed database undergoes one random maintenance operation (reopen, optimize, shrink, backup_open, copy, rename, switch variant) with ordered dump + search battery compared before/after "
+            "(maintenance-differs / maintenance-error), then the history continues on it; non-trivial = history with at least one maintenance operation" % (r["histories"], steps))
+    if co is not None:
+        failures = co["failures"] + failures
+        disagreements = co["disagreements"] + disagreements
+        evaluations += co["steps"]
+        nontrivial += co["nontrivial"]
+        samples = co["samples"][:3] + samples[:3]
+        dist.update({"coll:" + k: v for k, v in co["dist"].items()})
+        rule = ("collection layer: %d histories (the same generated history on MemoryStorage, FileStorage, FileStorageMemoryMapped; kinds: DbVec<u64>, DbVec<i64>, DbVec<String>, DbVec<DbValue>, DbVec<DbKeyValue>, DbMapData<u64,u64>, "
+                "DbMapData<String,u64>, GraphDataStorage, MultiMapStorage<u64,u64>), %d steps; 14%% of the steps are a reload (handle rebuilt by from_storage) or a maintenance operation of the storage "
+                "(optimize, drop+open, backup+open); after EVERY step observation + handle + every live record's bytes equal the extracted model's line (%d lines compared; MultiMapStorage: shadow "
+                "oracle only); non-trivial = history with a reload, a maintenance operation and growth/removal. Database level: " % (co["histories"], co["steps"], co["lines"])) + rule
+        notes.append("collection correspondence: %d steps on %d histories, %d lines compared exactly, %d disagreements, %d oracle failures"
+                     % (co["steps"], co["histories"], co["lines"], len(co["disagreements"]), len(co["failures"])))
     return dict(
-        evaluations=r["cases"], distinct_nontrivial=r["nontrivial"], samples=r["samples"], dist=r["dist"],
-        rule="%d generated query histories (profile all, <= %d steps) executed on DbMemory and side by side on DbFile, Db, DbAny(file), DbAny(mapped); with probability 1/12 per step and at the end each "
-             "file-backed database undergoes one random maintenance operation (reopen, optimize, shrink, backup_open, copy, rename, switch variant) with ordered dump + search battery compared before/after "
-             "(maintenance-differs / maintenance-error), then the history continues on it; non-trivial = history with at least one maintenance operation" % (r["histories"], steps),
-        failures=failures, disagreements=r["disagreements"],
-        assumptions=["insert lists have distinct keys"],
+        evaluations=evaluations, distinct_nontrivial=nontrivial, samples=samples, dist=dist, rule=rule,
+        failures=failures, disagreements=disagreements,
+        assumptions=["insert lists have distinct keys",
+                     "the payload 8 + size * len of a vector stays below 2^64 (it is bounded by the record size)"],
+        trusted_extra=["harness shadow list / table / multimap (collrun.rs) as the independent statement of the collection semantics"],
+        notes=notes,
     )
